@@ -155,6 +155,18 @@ func init() {
 					// weighted inputs (fractional weights take other paths than unit entries
 					// in a merge: pages against buffer, dense bins against map entries)
 					sp.Ops = append(sp.Ops, skAddW(0, 1, 0.5), skAddW(1, 7.3, 0.25), skAddW(2, -1, 2))
+					if tr[0].K == 'P' && tr[1].K == 'P' {
+						// the paginated store merged with itself: a receiver whose pages were
+						// allocated and cleared, an argument with two pages, a receiver whose
+						// buffer is past its compaction trigger
+						i0 := m.Index(1)
+						sp.Seeds = []mc.Seed[*SketchWorld]{
+							skSeed("empty"),
+							skSeed("a-had-pages-and-was-cleared+b-has-two-pages", skAddW(0, m.Value(i0), 2), skAddW(0, m.Value(i0+40), 2), skClear(0), skAddW(1, m.Value(i0+1), 0.5), skAddW(1, m.Value(i0+41), 2)),
+							skSeed("a-holds-100-scattered-entries", skAddRunStride(0, 1.0, 100, 3)),
+						}
+						sp.Depth--
+					}
 					// a sketch merged into itself holds its input twice
 					sp.Ops = append(sp.Ops, skMerge(0, 0), skCodec(1, 1, false, false))
 					if mc.MapOrderControlled {
